@@ -111,10 +111,10 @@ func runJob(j c56.Job, mode string, g, r int) result {
 	t0 := time.Now()
 	base, to := outputs(run(dec(j.Input), []any{dec(varText)}, ctx0))
 	cancel0()
-	if to {
+	if to && j.Origin != "canon" {
 		return result{"skip", "slow"}
 	}
-	if time.Since(t0) > 60*time.Millisecond {
+	if time.Since(t0) > 60*time.Millisecond && j.Origin != "canon" {
 		return result{"skip", "slow"}
 	}
 	shared := c56.Alias(dec(j.Input), 1)
